@@ -82,10 +82,12 @@ theorem outs_onListener (pi li : Nat) (f : Listener.S → Listener.S) (w : W) : 
     · exact OutsExt.refl w
     · split
       · exact OutsExt.refl w
-      · rename_i l _
-        have h1 : OutsExt w (setPool w pi (fun p => { p with procs := p.procs.set li (f { p := l }).p })) := OutsExt.of_eq rfl
-        have h2 := outs_absorb pi li (f { p := l }).outs (setPool w pi (fun p => { p with procs := p.procs.set li (f { p := l }).p }))
-        exact OutsExt.trans h1 (OutsExt.trans h2 (OutsExt.of_eq rfl))
+      · split
+        · exact OutsExt.refl w
+        · rename_i l _
+          have h1 : OutsExt w (setPool w pi (fun p => { p with procs := p.procs.set li (f { p := l }).p })) := OutsExt.of_eq rfl
+          have h2 := outs_absorb pi li (f { p := l }).outs (setPool w pi (fun p => { p with procs := p.procs.set li (f { p := l }).p }))
+          exact OutsExt.trans h1 (OutsExt.trans h2 (OutsExt.of_eq rfl))
 
 theorem outs_go (pi e : Nat) (env : Bytes) : ∀ (fuel li : Nat) (w : W), OutsExt w (dispatchEvent.go pi e env fuel li w).1
   | 0, li, w => OutsExt.refl w
@@ -162,6 +164,50 @@ theorem outs_spawnOp (pi li : Nat) (pid : Int) (payload : Bytes) (w : W) : OutsE
       · exact OutsExt.refl w
       · exact OutsExt.trans (outs_notify _ payload w) (outs_onListener pi li _ _)
 
+theorem outs_gstep (pi : Nat) (s : W × Option Bool) (st : GStep) : OutsExt s.1 (gstep pi s st).1 := by
+  unfold gstep
+  split
+  · exact OutsExt.refl _
+  · split
+    · exact OutsExt.refl _
+    · split
+      · split
+        · exact OutsExt.of_eq rfl
+        · exact OutsExt.refl _
+      · exact OutsExt.refl _
+    · split
+      · exact OutsExt.of_eq rfl
+      · exact OutsExt.refl _
+    · exact OutsExt.of_eq rfl
+    · split
+      · exact outs_notify _ _ _
+      · exact OutsExt.refl _
+    · split
+      · split
+        · exact OutsExt.refl _
+        · exact OutsExt.refl _
+      · exact OutsExt.refl _
+
+theorem outs_runGroup (pi : Nat) : ∀ (steps : List GStep) (s : W × Option Bool), OutsExt s.1 (steps.foldl (gstep pi) s).1
+  | [], s => OutsExt.refl _
+  | st :: r, s => OutsExt.trans (outs_gstep pi s st) (outs_runGroup pi r _)
+
+theorem outs_removeOp (pi : Nat) (w : W) : OutsExt w (removeOp pi w) := by
+  unfold removeOp removeRun runGroup
+  split
+  · exact OutsExt.refl w
+  · split
+    · exact OutsExt.refl w
+    · exact outs_runGroup pi _ (w, none)
+
+theorem outs_addOp (pi : Nat) (w : W) : OutsExt w (addOp pi w) := by
+  unfold addOp addRun runGroup
+  split
+  · exact OutsExt.refl w
+  · split
+    · exact OutsExt.refl w
+    · exact outs_runGroup pi _ (w, none)
+
 theorem outs_applyOp (h : Bytes → HRes) (w : W) (op : Op) : OutsExt w (applyOp h w op) := by
   cases op <;> simp only [applyOp]
   · exact outs_notify _ _ w
@@ -170,9 +216,14 @@ theorem outs_applyOp (h : Bytes → HRes) (w : W) (op : Op) : OutsExt w (applyOp
     | exact outs_onListener _ _ _ w
     | exact outs_dieOp h _ _ _ _ w
     | exact outs_spawnOp _ _ _ _ w
+    | exact outs_removeOp _ w
+    | exact outs_addOp _ w
 
-theorem outs_step (h : Bytes → HRes) (w : W) (op : Op) : OutsExt w (step h w op) :=
-  OutsExt.trans (OutsExt.of_eq (w := w) rfl) (outs_applyOp h _ op)
+theorem outs_step (h : Bytes → HRes) (w : W) (op : Op) : OutsExt w (step h w op) := by
+  unfold step
+  split
+  · exact OutsExt.of_eq rfl
+  · exact OutsExt.trans (OutsExt.of_eq (w := w) rfl) (outs_applyOp h _ op)
 
 /-- the trace of a history extends the trace of every prefix of it -/
 theorem outs_exec (h : Bytes → HRes) (w : W) (ops : List Op) : OutsExt w (exec h w ops) :=
